@@ -77,7 +77,9 @@ Why(r) ==
   IF r.script.ok # 1 THEN <<"script is not readable as SMT-LIB commands", 0>>
   ELSE LET wf == WellFormed(r.script.cmds) IN
        IF wf[1] # "ok" THEN <<wf[1], wf[2]>>
-       ELSE IF r.ev = "Enc" /\ r.outcome.kind = "ok" THEN <<Faithful(r), 0>>
+       \* (executions of systems with states that have no next function are not enumerated: well-formedness only)
+       ELSE IF r.ev = "Enc" /\ r.outcome.kind = "ok" /\ r.check_faith = 1 THEN <<Faithful(r), 0>>
+       ELSE IF r.ev = "Enc" /\ r.outcome.kind = "ok" THEN <<"ok", 0>>
        ELSE IF r.ev = "Enc" /\ r.outcome.kind # "ok" THEN <<"encoder failed although its script is well-formed: " \o r.outcome.kind, 0>>
        ELSE <<"ok", 0>>
 \* input class of a rejected script (tells the recorded finding apart from new ones): the failing definition
